@@ -15,6 +15,8 @@ def mk_dataset(rng, kind=None, maxn=40):
         q = q + rng.uniform(-0.004, 0.004, n)  # raw abscissae not yet on the 0.01 lattice
     base = {"S(Q)": 1.0, "Q[S(Q)-1]": 0.0, "FK(Q)": 0.0, "DCS(Q)": 1.0}[kind]
     y = base + rng.normal(size=n) * 0.3
+    if rng.random() < 0.06:
+        y[0] = float(rng.choice([3e12, -8e13, 5e14]))   # direct-beam leakage / a small-angle upturn in the lowest bin: a number like any other
     info = {"x": [float(v) for v in q], "y": [float(v) for v in y], "ReciprocalFunction": kind}
     if rng.random() < 0.8:
         info["dy"] = [float(v) for v in rng.uniform(0, 0.05, n)]
@@ -49,6 +51,15 @@ def mk_dataset(rng, kind=None, maxn=40):
             if key in info:
                 info[key] = [info[key][int(j)] for j in order]
         info["unsorted"] = True
+    return info
+
+
+def lone_origin_point(rng, kind=None):
+    """a dataset that consists of the single point Q = 0 (an extrapolated S(0), a transmission normalisation point)"""
+    kind = kind or str(rng.choice(["S(Q)", "DCS(Q)"]))
+    info = {"x": [0.0], "y": [float(rng.uniform(0.2, 3.0))], "ReciprocalFunction": kind}
+    if rng.random() < 0.5:
+        info["dy"] = [float(rng.uniform(0, 0.05))]
     return info
 
 
@@ -101,7 +112,9 @@ def spec_ingest(d, qmin, qmax, bcoh, btot, conv):
         xo = d.get("X", {}).get("Offset", 0.0)
         y = y * sc + of
         dy = dy * sc
-        x = x + xo
+        # the offset Q values are put back on the 0.01 lattice of every other dataset before the global window is applied (the window is
+        # a statement about the stored Q: an offset Q of 2.50198 is stored as 2.50 and lies inside Qmax = 2.5)
+        x = np.around(x + xo, 2)
     m = np.ones(len(x), bool)
     if qmin is not None:
         m &= x >= qmin - 1e-9
